@@ -55,10 +55,13 @@ var properties = map[string][]harnessSpec{
 		{Name: "play.VerifC07Texts", Quick: map[string]int{"C07.maxText": 3}, Thorough: map[string]int{"C07.maxText": 6}, Marks: end},
 		{Name: "play.VerifC07Dynamics", Marks: end},
 		{Name: "midix.VerifC08File", Quick: map[string]int{"C08.maxOps": 2, "C08.maxTracks": 2, "C08.maxKeys": 1}, Thorough: map[string]int{"C08.maxOps": 2, "C08.maxTracks": 2, "C08.maxKeys": 2}, Marks: end},
+		{Name: "cmd.VerifC07BPMFlag", Quick: map[string]int{"C07.bpmDigits": 3}, Thorough: map[string]int{"C07.bpmDigits": 4}, Marks: []string{"end", "flag-absent", "flag-given"}},
 		{Name: "play.VerifC07Defaults", Marks: end},
 	},
 	"C03": {
 		{Name: "astconv.VerifC03Syllable", Quick: map[string]int{"C03.bass": 1}, Thorough: map[string]int{"C03.bass": 1}, Marks: []string{"end", "end-with-bass", "rejected"}},
+		// "every supported key" includes the key in force after a {key=…} change, on a chord or a rest
+		{Name: "astconv.VerifC05KeyChange", Marks: []string{"end", "carrier-rejected"}},
 	},
 	"C04": {
 		{Name: "input/ast.VerifC04Parser", Quick: map[string]int{"C04.maxTokens": 8}, Thorough: map[string]int{"C04.maxTokens": 10}, Marks: []string{"end", "accepted", "rejected", "bad-token"}},
